@@ -235,8 +235,8 @@ func errReturn(r *ssa.Return) bool {
 	if len(r.Results) == 0 {
 		return false
 	}
-	last := r.Results[len(r.Results)-1]
-	if !isErrorType(last.Type()) {
+	last := retVal(r, len(r.Results)-1)
+	if !isErrorType(r.Results[len(r.Results)-1].Type()) {
 		return false
 	}
 	return !isNilConst(last)
@@ -244,8 +244,8 @@ func errReturn(r *ssa.Return) bool {
 
 func boolReturn(want bool) func(*ssa.Return) bool {
 	return func(r *ssa.Return) bool {
-		for _, v := range r.Results {
-			if b, ok := constBool(v); ok && b == want {
+		for i := range r.Results {
+			if b, ok := constBool(retVal(r, i)); ok && b == want {
 				return true
 			}
 		}
